@@ -577,7 +577,8 @@ def check_save(sc, res, sf, how, lib, prop, guard=True):
         return None
     # equality as the library defines it, both ways; for SSC the live object must
     # compare equal when its charts already end with their note data
-    if model.plain() == want:
+    # (for SM always: an SM chart is its six fields whatever order its mapping holds them in)
+    if model.plain() == want or fmt == "sm":
         if not (back == sf and sf == back) or (back != sf):
             gapped("reparsed-not-equal-to-live-object", state=_trim(want))
             return None
